@@ -380,7 +380,12 @@ class Inliner(object):
         if not nested or isinstance(top, ast.Call) and self.callee(top, in_class)[0] is None and True is False:
             return None
         if isinstance(top, ast.Call) and self.callee(top, in_class)[0] is None:
-            return None              # the statement's own call is not a helper: its evaluation order against the hoisted one is not known
+            # the statement's own call is not a helper: the hoisted result may move in front of it only if everything else the call evaluates before calling
+            # (its receiver, its other arguments) is an access path -- `acc.extend(helper(..))`, `out.append(helper(..))`
+            others = [a for a in top.args if not any(a is n_ for n_ in nested)] + [k.value for k in top.keywords if not any(k.value is n_ for n_ in nested)]
+            fn_ok = isinstance(top.func, ast.Name) or (isinstance(top.func, ast.Attribute) and _atomic(top.func.value, deep=False))
+            if not (fn_ok and all(_atomic(a, deep=False) for a in others) and all(any(a is n_ for a in list(top.args) + [k.value for k in top.keywords]) for n_ in nested)):
+                return None
         pre = []
         mapping = {}
         for n in nested:
@@ -803,6 +808,84 @@ def propagate_child_aliases(fn):
     fn.body = [sub.visit(st) for st in fn.body]
     return len(aliases)
 
+class _FoldConstants(ast.NodeTransformer):
+    """what substituting a literal for a parameter leaves behind:  X if True else Y -> X;  `if False: A else: B` -> B;  not True -> False;
+    True and c -> c;  False or c -> c"""
+    count = 0
+
+    @staticmethod
+    def _b(e):
+        return e.value if isinstance(e, ast.Constant) and isinstance(e.value, bool) else None
+
+    def visit_UnaryOp(self, n):
+        self.generic_visit(n)
+        if isinstance(n.op, ast.Not) and self._b(n.operand) is not None:
+            _FoldConstants.count += 1
+            return ast.copy_location(ast.Constant(value=not n.operand.value), n)
+        return n
+
+    def visit_BoolOp(self, n):
+        self.generic_visit(n)
+        vals = []
+        for v in n.values:
+            b = self._b(v)
+            if b is None:
+                vals.append(v)
+            elif isinstance(n.op, ast.And) and b is False:
+                if not vals:
+                    _FoldConstants.count += 1
+                    return ast.copy_location(ast.Constant(value=False), n)
+                vals.append(v)
+                break
+            elif isinstance(n.op, ast.Or) and b is True:
+                if not vals:
+                    _FoldConstants.count += 1
+                    return ast.copy_location(ast.Constant(value=True), n)
+                vals.append(v)
+                break
+            else:
+                _FoldConstants.count += 1      # neutral element: dropped
+        if not vals:
+            return ast.copy_location(ast.Constant(value=isinstance(n.op, ast.And)), n)
+        if len(vals) == 1:
+            return vals[0]
+        n.values = vals
+        return n
+
+    def visit_IfExp(self, n):
+        self.generic_visit(n)
+        b = self._b(n.test)
+        if b is not None:
+            _FoldConstants.count += 1
+            return n.body if b else n.orelse
+        return n
+
+    def _block(self, stmts):
+        out = []
+        for st in stmts:
+            st = self.visit(st)
+            if isinstance(st, ast.If) and self._b(st.test) is not None:
+                _FoldConstants.count += 1
+                out.extend(st.body if st.test.value else st.orelse)
+            elif st is not None:
+                out.append(st)
+        return out
+
+    def generic_visit(self, node):
+        for fld in ('body', 'orelse', 'finalbody'):
+            b = getattr(node, fld, None)
+            if isinstance(b, list) and b and isinstance(b[0], ast.stmt):
+                setattr(node, fld, self._block(b) or ([ast.Pass()] if fld == 'body' else []))
+        for fld, val in ast.iter_fields(node):
+            if fld in ('body', 'orelse', 'finalbody') and isinstance(val, list) and val and isinstance(val[0], ast.stmt):
+                continue
+            if isinstance(val, ast.AST):
+                setattr(node, fld, self.visit(val))
+            elif isinstance(val, list):
+                setattr(node, fld, [self.visit(v) if isinstance(v, ast.AST) else v for v in val])
+        return node
+
+
 class _FlattenStar(ast.NodeTransformer):
     """f(*(a, b))  ->  f(a, b);   (a,) + (b,)  ->  (a, b)      (what parameter binding of a `*operands` helper leaves behind)"""
     count = 0
@@ -908,6 +991,7 @@ def lower_package(trees):
     if stats['inlined']:
         for tree in trees.values():
             _FlattenStar().visit(tree)
+            _FoldConstants().visit(tree)
     # class-level method aliases  `visitPow = visitAddition`  become definitions of their own (the same function under another name)
     stats['method_alias'] = 0
     for tree in trees.values():
